@@ -65,11 +65,17 @@ pub struct PairCase {
     /// the client opens its connection window to 2^31-1 right after its SETTINGS
     #[serde(default)]
     pub huge_conn_window: bool,
+    /// HTTP/1.1 client: uploads are chunked (chunks of this many bytes) instead of Content-Length
+    #[serde(default)]
+    pub h1_chunk: Option<usize>,
+    /// HTTP/2 client: DATA frames of uploads carry this much padding
+    #[serde(default)]
+    pub h2_padding: Option<u8>,
 }
 
 impl PairCase {
     pub fn simple(front: Proto, back: Proto, xfers: Vec<Xfer>) -> PairCase {
-        PairCase { front, back, xfers, initial_window: None, max_frame_size: None, header_table_size: None, grants: Grants::Eager, upload_frame: 16384, buffer_size: 16393, shrink_window_to: None, pace_front: None, spread_upload: false, huge_conn_window: false }
+        PairCase { front, back, xfers, initial_window: None, max_frame_size: None, header_table_size: None, grants: Grants::Eager, upload_frame: 16384, buffer_size: 16393, shrink_window_to: None, pace_front: None, spread_upload: false, huge_conn_window: false, h1_chunk: None, h2_padding: None }
     }
 }
 
@@ -130,7 +136,19 @@ pub fn run_pair(tag: &str, case: &PairCase, prefix: Vec<u32>, profile: ChoicePro
                 script.push(Step::H2Headers { stream: sid, headers: hs, end_stream: x.up == 0, continuation_at: None });
             }
             for (i, x) in case.xfers.iter().enumerate() {
-                if x.up > 0 && !case.spread_upload {
+                if x.up > 0 && case.h2_padding.is_some() {
+                    let pad = case.h2_padding.unwrap() as usize;
+                    let body = upload(i, x.up);
+                    let chunks: Vec<&[u8]> = body.chunks(case.upload_frame.max(1)).collect();
+                    let mut raw = vec![];
+                    for (k, c) in chunks.iter().enumerate() {
+                        let mut p = vec![pad as u8];
+                        p.extend_from_slice(c);
+                        p.extend(std::iter::repeat_n(0u8, pad));
+                        raw.extend_from_slice(&h2::frame(h2::DATA, h2::F_PADDED | if k + 1 == chunks.len() { h2::F_END_STREAM } else { 0 }, stream_ids[i], &p));
+                    }
+                    script.push(Step::H2Raw(raw));
+                } else if x.up > 0 && !case.spread_upload {
                     script.push(Step::H2Data { stream: stream_ids[i], bytes: upload(i, x.up), end_stream: true, frame_size: case.upload_frame, ignore_window: false });
                 } else if x.up > 0 {
                     let body = upload(i, x.up);
@@ -176,7 +194,16 @@ pub fn run_pair(tag: &str, case: &PairCase, prefix: Vec<u32>, profile: ChoicePro
         Proto::H1 => {
             for (i, x) in case.xfers.iter().enumerate() {
                 let body = upload(i, x.up);
-                let req = if x.up > 0 {
+                let req = if x.up > 0 && case.h1_chunk.is_some() {
+                    let mut r = format!("POST /size/{} HTTP/1.1\r\nHost: a.io\r\nX-Xfer: {i}\r\nTransfer-Encoding: chunked\r\n\r\n", x.down).into_bytes();
+                    for c in body.chunks(case.h1_chunk.unwrap().max(1)) {
+                        r.extend_from_slice(format!("{:x}\r\n", c.len()).as_bytes());
+                        r.extend_from_slice(c);
+                        r.extend_from_slice(b"\r\n");
+                    }
+                    r.extend_from_slice(b"0\r\n\r\n");
+                    r
+                } else if x.up > 0 {
                     let mut r = format!("POST /size/{} HTTP/1.1\r\nHost: a.io\r\nX-Xfer: {i}\r\nContent-Length: {}\r\n\r\n", x.down, x.up).into_bytes();
                     r.extend_from_slice(&body);
                     r
